@@ -29,7 +29,7 @@ func init() {
 			"the driver then replays a fixed case list in several fresh processes (different GOMAXPROCS) and compares fingerprints across processes. " +
 			"families: fixture corpus; generated documents with >=2 simultaneous faults of one kind or >=3 entries in every internally hashed collection (macros, enum rules, path parameters, tags, similar paths, type tables), " +
 			"regex bodies with and without the fixed-seed option; complete projects with 2-4 faults of different final validations (the last stage of the compiler); " +
-			"the same project under a file name that was used before for other texts; a healthy graph of user types processed before and after rejected versions of itself (what a failed project leaves behind must not matter). distinct_nontrivial = distinct (fault-kind set | outcome class) among documents with >=2 simultaneous faults or >=3 hashed entries",
+			"the same project under a file name that was used before for other texts; two texts that stand at one path one after the other and differ in the line of an INCLUDE whose file has a fault found after scanning (A, B, A at one path; B also as the first project at a fresh path; the include trace must name the line of the text processed); a healthy graph of user types processed before and after rejected versions of itself (what a failed project leaves behind must not matter). distinct_nontrivial = distinct (fault-kind set | outcome class) among documents with >=2 simultaneous faults or >=3 hashed entries",
 		Assumptions: []string{
 			"'all map-iteration orders' is sampled by repetition: a k-way choice hidden behind a map survives K repetitions with probability about (1/k)^(K-1)",
 		},
@@ -42,6 +42,9 @@ func init() {
 			{Name: "rejected-after-rejected", N: func(string) int { return len(c03Rejected) * len(c03Rejected) }, Gen: func(r *xrand.Rand, idx int, tier string) *fw.Case {
 				return &fw.Case{Ints: map[string]int{"i": idx / len(c03Rejected), "j": idx % len(c03Rejected)}, Docs: []run.Doc{{}}}
 			}, Eval: c03EvalRejectedPair},
+			{Name: "same-path-moved-include", N: func(string) int { return c03SamePathN() }, Gen: func(r *xrand.Rand, idx int, tier string) *fw.Case {
+				return &fw.Case{Ints: map[string]int{"i": idx}, Docs: []run.Doc{{}}}
+			}, Eval: c03EvalSamePath},
 			{Name: "concurrent", N: constN(150, 3000), Gen: c03GenMultiFault, Eval: c03EvalConcurrent},
 			{Name: "concurrent-accepted", N: constN(400, 8000), Gen: genModelCase, Eval: c03EvalConcurrentModel},
 		},
